@@ -158,10 +158,15 @@ func genDet(h *vh.H, i int) string {
 	cfg.NestedPkgs = true
 	// enum in / notIn rules with a repeated option (bare + prefixed): a list built from a Go map would change order
 	cfg.EnumInRules = h.Chance(2, 3)
+	// validation rules on scalar fields: (buf.validate.field) options in the descriptors and in the printed text
+	cfg.Rules = h.Chance(1, 2)
 	g := j5sgen.New(h.Rng, cfg)
 	b := g.Bundle()
 	if h.Chance(1, 6) {
 		g.AddImpliedClash(b)
+	}
+	if h.Chance(1, 8) {
+		g.AddFileImportClash(b)
 	}
 	if g.EnumInRuleCount > 0 {
 		h.Count("det.gen.enum-in-repeat")
